@@ -811,6 +811,9 @@ func c08R11(c *Ctx) {
 					case *ssa.Const:
 						return false
 					}
+					if v.Type().String() == "error" {
+						return false // the error of the validation itself, not the validated value
+					}
 					return accepted(v)
 				}
 				if !overAccepted(ifi.Cond, 0) {
